@@ -12,6 +12,7 @@ mod node;
 mod oracle;
 mod plan;
 mod rng;
+mod scansim;
 mod seams;
 mod sm;
 mod smsim;
@@ -63,6 +64,10 @@ fn main() {
         "mergesim" => {
             let seed: u64 = kv.get("seed").and_then(|s| s.parse().ok()).unwrap_or(1);
             std::process::exit(mergesim::run_cli(seed, &kv));
+        }
+        "scansim" => {
+            let seed: u64 = kv.get("seed").and_then(|s| s.parse().ok()).unwrap_or(1);
+            std::process::exit(scansim::run_cli(seed, &kv));
         }
         "smsim-child" => std::process::exit(smsim::child_main(&kv)),
         _ => {
